@@ -115,6 +115,8 @@ pub fn run_case(id: &str, r: &mut Rng, out: &mut String) {
         3 | 4 => vec!["S0:0:0".to_string(), "S1:1.5:3".to_string()],
         5 => vec!["S0:-1:5".to_string()],
         6 => vec![":1:1".to_string()],
+        7 => vec!["S0:10:100".to_string(), "S0:5:70".to_string()],
+        8 => vec!["S1:2:20".to_string(), "S0:1:1".to_string(), "S1:2:20".to_string()],
         _ => vec![],
     };
     let desc = format!(
